@@ -3,6 +3,8 @@
 package match
 
 import (
+	"sync"
+
 	"github.com/Comcast/sheens/zzverif/verif"
 )
 
@@ -314,4 +316,39 @@ func VerifOrderLemmas() {
 		verif.Assert("copyMap-value", verif.SameObject(v, src[i]) || verif.JSONEqual(v, src[i]))
 	}
 	verif.Reach("end")
+}
+
+// VerifC03Concurrent: the same pattern value (and message) matched from two goroutines at once, each with
+// its own bindings: no access of the matcher to shared memory is a write unordered with another access
+// (happens-before detector of the executor: what `go test -race` reports), and each goroutine gets the
+// result it gets alone.
+func VerifC03Concurrent() {
+	p := verif.AnyJSON("p", verif.Opts{Depth: 2, Width: 2, Nodes: 3, Finite: true})
+	m := verif.AnyJSON("m", verif.Opts{Depth: 1, Width: 2, NoVar: true, NoVarKeys: true, Finite: true})
+	given := Bindings(verif.AnyMap("bs", verif.Opts{Depth: 1, Width: 1, NoVar: true, Finite: true}))
+	verif.MapOrderInsertion(true) // (order dependence is VerifC03's subject)
+	var res [2][]Bindings
+	var errs [2]error
+	var wg sync.WaitGroup
+	wg.Add(2)
+	for i := 0; i < 2; i++ {
+		i := i
+		bs := given.Copy()
+		go func() {
+			defer wg.Done()
+			res[i], errs[i] = Match(p, m, bs)
+		}()
+	}
+	wg.Wait()
+	// (the reference run comes last: a run before the goroutines would order its accesses before theirs)
+	alone, errAlone := Match(p, m, given.Copy())
+	for _, r := range verif.RaceReports() {
+		verif.Note("race: " + r)
+		verif.Assert("no-data-race", false)
+	}
+	for i := 0; i < 2; i++ {
+		verif.Assert("concurrent-same-outcome", (errs[i] != nil) == (errAlone != nil))
+		verif.Assert("concurrent-same-result-count", len(res[i]) == len(alone))
+	}
+	verif.Reach("concurrent-done")
 }
